@@ -139,7 +139,15 @@ claim("C20",
       "the broadcast branch (filterCLAs precondition on the store item) and concurrency between cron jobs are not decided; range over a map is assumed to visit every key that stays in the map.",
       "DESIGN.md §6 C20, §11.4")
 
-for pid in ["C09"]:
-    na(pid, UNBUILT)
+claim("C09",
+      "Bundle.Fragment is under contract from its body: a must-not-fragment bundle is refused with an error; a successful call never returns an empty list (zero-length payload included); a single result is the bundle itself "
+      "(same primary block fields, same block slice); with more than one result every fragment's primary block repeats version, CRC type, destination, source, report-to, creation timestamp and lifetime of the original, "
+      "is flagged as a fragment, announces the original payload length as total length and an offset below it, and the first fragment has offset 0; fragmentPrimaryBlock's field-by-field postcondition; "
+      "no slice/index/nil/type-assertion panic in Fragment, fragmentPrimaryBlock and fragmentExtensionBlocksLen; the float64 detour of the offset computation is shown exact (side obligation |x| <= 2^53).",
+      "Partial. Not decided: 'each fragment serialises to at most the maximum size' (needs an encoded-size specification function over all block types), the payload slices partitioning the payload without gap or overlap "
+      "(offset arithmetic is in bounds, but the per-fragment payload length is not tied to the next offset), extension-block placement (all in the first, replicated ones in every fragment), and byte-identical reassembly "
+      "(ReassembleFragments is an assumed summary; its parts are under contract for C10). Precondition: at most 65536 canonical blocks (keeps the overhead sums within int range). "
+      "Bundle.AddExtensionBlock is used through its assumed summary (its numbering loop is proved separately); append into spare capacity of a shared backing array is not modelled by that summary.",
+      "DESIGN.md §6 C09, §11.4")
 na("C08", "Durability across restarts/crash points and concurrent pushes are history properties of badgerhold/gob/the file system; "
           "the in-repo code is a thin reflection-driven wrapper; no function contract within reach can express or decide them (DESIGN.md §7).")
